@@ -147,7 +147,17 @@ func (defaultLocker *DefaultLocker) Lock(ctx context.Context, accounts Accounts)
 
 	select {
 	case <-ctx.Done():
-		defaultLocker.intents.RemoveValue(intent)
+		// the intent may have been granted while the request was being cancelled:
+		// decide under the locker's mutex, and give the locks back if so
+		defaultLocker.mu.Lock()
+		select {
+		case <-intent.acquired:
+			defaultLocker.mu.Unlock()
+			releaseIntent(ctx)
+		default:
+			defaultLocker.intents.RemoveValue(intent)
+			defaultLocker.mu.Unlock()
+		}
 		return nil, errors.Wrapf(ctx.Err(), "locking accounts: %s as read, and %s as write", accounts.Read, accounts.Write)
 	case <-intent.acquired:
 		return releaseIntent, nil
